@@ -33,7 +33,7 @@ CHECKS = {
  "C05": dict(category="proof",
    text="For every public builder method and every GState setter: on each exceptional exit the builder's tracked fields, the whole state "
         "object, the bounds table and the remembered parameters are proved identical to the pre-state and no block is emitted. "
-        "Three known findings (halt late reject; move_absolute/rapid_absolute in relative mode; F/S stored before an absolute-bypass "
+        "Two known findings (move_absolute/rapid_absolute in relative mode; F/S stored before an absolute-bypass "
         "target is rejected) are carved out by explicit input regions: the clause is proved outside them and each region is "
         "re-confirmed by native replay on every run.",
    note=COMMON + BRIDGE),
@@ -88,8 +88,8 @@ CHECKS = {
         "filters, and traces every surviving vertex through to_distance_mode()+move(); _filter_segments never drops the last sample; one traced segment puts the "
         "builder exactly on its vertex in both distance modes.",
    note="A-pi, A-real; trigonometry only through named lemma instances T1–T6 (lemmas/Trig.lean); numpy elementwise = pointwise; np.linspace/np.diff/norm/mask indexing assumed. "
-        "BOUNDED (not proof): spline clauses (scipy CubicSpline), the two geometric clauses of arc_radius (centre equidistant, minor/major side) which the solvers do not decide "
-        "inside the VC, polyline for list length 3, and an end-to-end run of all 8 shapes on the real builder."),
+        "arc_radius: centre at distance |radius| from both ends and minor/major side by the sign of the radius are discharged through separately proved field-identity lemmas. "
+        "BOUNDED (not proof): spline clauses (scipy CubicSpline), polyline for list length 3, and an end-to-end run of all 8 shapes on the real builder."),
  "C11": dict(category="proof",
    text="The absolute target every shape works from is computed by to_absolute() in either mode and the curve closures depend only on it (same obligations proved from an "
         "arbitrary distance mode, no case on the mode survives in the proved vertex functions); one interpolated segment move(to_distance_mode(P)) is proved to land exactly "
@@ -130,8 +130,9 @@ CHECKS = {
         "which lineno and the job index advance by exactly one (comment-only / host-command lines consume no number; lineno never skips). NOT decided: everything quantified over "
         "thread interleavings and firmware latency, and the liveness clause 'the firmware ends up accepting every line'.",
    note="A-atomic (fields shared with the read thread are stable within one call except across the busy-wait, which havocs them), A-str, functools.reduce/map/ord, regex comment "
-        "stripping and str(int) as uninterpreted functions, no extra event handlers registered. The history argument 'numbering-faithful source + accept-only-expected-N firmware "
-        "=> accepted log is a prefix of the job' is stated in DESIGN.md §4 C15 and is not machine-checked.", technique="contract-based deductive verification (per-call, sequential); schedules not decided"),
+        "stripping and str(int) as uninterpreted functions, no extra event handlers registered. The history step 'numbering-faithful source + accept-only-expected-N firmware "
+        "=> the accepted log is a prefix of the job, for ANY order, repetition and corruption pattern of transmissions' is proved in lemmas/Proto.lean (accepted_is_prefix); "
+        "that the two threads keep the source numbering-faithful under every interleaving is NOT proved.", technique="contract-based deductive verification (per-call, sequential); schedules not decided"),
  "C16": dict(category="other",
    text="Sequential part only. Proved per call: PrintrunWriter.write performs exactly [ack.clear, device.send(strip(decode(statement))) once, ack.wait] and then raises (and clears) "
         "a stored DeviceError; nothing is sent after a shutdown request; _abort_on_device_error raises-iff; _wait_for_pending_operations returns only when nothing is pending "
